@@ -2,8 +2,69 @@
 
 use super::hist::*;
 use super::Meta;
-use crate::report::{CheckResult, Collector};
+use crate::ccx::*;
+use crate::report::{CheckResult, Collector, Fail};
+use crate::runner::report_fail;
+use crate::wire::{self, WXEnc};
 use crate::Ctx;
+use serde_json::json;
+
+/// Encapsulations with n targets that are all hybridized, and the same plus one classic target,
+/// for n around every count at which something could switch (1, small, 14-17, 31-33, 63-65,
+/// 127-129): the first must have the hybridized layout with n ML-KEM ciphertexts, the second the
+/// classic one; both must open with a key of one of the hybridized attributes.
+pub fn wide_flavours(thorough: bool, col: &Collector) -> CheckResult {
+    let cc = Covercrypt::default();
+    let e = |e: Error| Fail::new("wide-flavours-failed", short_err(&e));
+    let mut counts = vec![1usize, 2, 3, 7, 14, 15, 16, 17, 31, 32, 33];
+    if thorough {
+        counts.extend([63, 64, 65, 127, 128, 129]);
+    } else {
+        counts.push(65);
+    }
+    let max = *counts.iter().max().unwrap();
+    let (mut msk, _) = cc.setup().map_err(e)?;
+    msk.access_structure.add_anarchy("W".into()).map_err(e)?;
+    for i in 0..max {
+        msk.access_structure.add_attribute(qa("W", &format!("h{i}")), hint(true), None).map_err(e)?;
+    }
+    msk.access_structure.add_attribute(qa("W", "classic"), hint(false), None).map_err(e)?;
+    let mpk = cc.update_msk(&mut msk).map_err(e)?;
+    let key = cc.generate_user_secret_key(&mut msk, &AccessPolicy::parse("W::h0").unwrap()).map_err(e)?;
+    for n in counts {
+        let all_hyb = (0..n).map(|i| AccessPolicy::Term(qa("W", &format!("h{i}")))).reduce(|a, b| a | b).unwrap();
+        let mixed = all_hyb.clone() | AccessPolicy::Term(qa("W", "classic"));
+        for (pol, want_hyb, targets) in [(all_hyb, true, n), (mixed, false, n + 1)] {
+            col.eval(1);
+            let (s, x) = cc.encaps(&mpk, &pol).map_err(e)?;
+            let b = ser(&x)?;
+            let w = WXEnc::decode(&b).map_err(|e| Fail::new("codec-cannot-decode-xenc", e))?;
+            if w.hyb != want_hyb || w.encs.len() != targets || b.len() != WXEnc::formula_len(2, want_hyb, targets) {
+                return Err(Fail::new(
+                    "xenc-flavour",
+                    format!(
+                        "encapsulation for {n} hybridized attributes{}: hybridized layout = {}, {} components, {} bytes; expected hybridized = {want_hyb}, {targets} components, {} bytes",
+                        if want_hyb { "" } else { " and one classic attribute" },
+                        w.hyb,
+                        w.encs.len(),
+                        b.len(),
+                        WXEnc::formula_len(2, want_hyb, targets)
+                    ),
+                ));
+            }
+            if want_hyb && w.encs.iter().any(|(ct, _)| ct.len() != wire::CT) {
+                return Err(Fail::new("xenc-flavour", format!("encapsulation for {n} hybridized attributes: a component has no ML-KEM ciphertext")));
+            }
+            match cc.decaps(&key, &x) {
+                Ok(Some(v)) if v == s => {}
+                other => return Err(Fail::new("authorized-key-cannot-open", format!("{n} targets: {:?}", other.map(|o| o.is_some()).map_err(|e| short_err(&e))))),
+            }
+            col.nontrivial(&("wide", n, want_hyb));
+        }
+    }
+    col.class("wide-flavours:verified");
+    Ok(())
+}
 
 fn profile(thorough: bool) -> Profile {
     Profile {
@@ -47,16 +108,26 @@ fn hc(thorough: bool) -> HistCheck<'static> {
 }
 
 pub fn run(ctx: &Ctx, col: &Collector) -> Meta {
+    let thorough = ctx.thorough;
+    if let Err(f) = crate::runner::guarded(|| wide_flavours(thorough, col)) {
+        report_fail(col, "wide-flavours", f, json!({"thorough": thorough}));
+    }
     let h = hc(ctx.thorough);
     run_hist(ctx, col, &h, ctx.n(2500, 30_000));
+    if col.class_count("wide-flavours:verified") == 0 && !col.stopped() {
+        col.note("generator unhealthy: class wide-flavours:verified empty");
+    }
     Meta {
         level: "exploration",
-        rule: "random structures with arbitrary hint assignments (all-classic, all-hybridized, mixed within and across dimensions) and histories of rekey, refresh, round-trips, key generation and encapsulation with single / multiple targets of equal and mixed flavour; from the independently decoded wire forms: every revision of every right in the master key, every public key and every user-key secret carries ML-KEM material iff some attribute of the right was declared hybridized; an encapsulation has the hybridized layout (flag, one ML-KEM ciphertext per target, size = README formula) iff all its targets are hybridized; flipping a bit inside an ML-KEM ciphertext makes an authorized key fail, and so does replacing every ML-KEM decapsulation key of the authorized key by a valid unrelated one (the ML-KEM layer must contribute to the secret). Non-trivial = history with a multi-target encapsulation of mixed flavours, a hybridized flavour observed after a rekey, or an ML-KEM binding probe; distinct by the whole case".into(),
+        rule: "random structures with arbitrary hint assignments (all-classic, all-hybridized, mixed within and across dimensions) and histories of rekey, refresh, round-trips, key generation and encapsulation with single / multiple targets of equal and mixed flavour; from the independently decoded wire forms: every revision of every right in the master key, every public key and every user-key secret carries ML-KEM material iff some attribute of the right was declared hybridized; an encapsulation has the hybridized layout (flag, one ML-KEM ciphertext per target, size = README formula) iff all its targets are hybridized; flipping a bit inside an ML-KEM ciphertext makes an authorized key fail, and so does replacing every ML-KEM decapsulation key of the authorized key by a valid unrelated one (the ML-KEM layer must contribute to the secret); plus a fixed sweep of encapsulations with n all-hybridized targets and with n hybridized + 1 classic target for n in 1..129 around every power of two and 14-17: layout, component count, size formula, authorized opening. Non-trivial = history with a multi-target encapsulation of mixed flavours, a hybridized flavour observed after a rekey, or an ML-KEM binding probe; distinct by the whole case".into(),
         exhaustive: false,
         assumptions: vec!["flavour = presence of ML-KEM key material / ciphertexts in the serialized forms (sizes from the selected configuration)".into()],
     }
 }
 
-pub fn replay(_kind: &str, case: &serde_json::Value, col: &Collector) -> CheckResult {
+pub fn replay(kind: &str, case: &serde_json::Value, col: &Collector) -> CheckResult {
+    if kind == "wide-flavours" {
+        return wide_flavours(case["thorough"].as_bool().unwrap_or(false), col);
+    }
     replay_hist(&hc(false), case, col)
 }
